@@ -1396,7 +1396,7 @@ def check_state(desc, chain, ctx, with_mutations=False, only_mutation=None):
     bad = [k for k in wc if k in ws and k not in allowed]
     ctx.count("reachability_comparisons")
     ctx.maximum("max_reachable_mutable_objects", len(ws))
-    if nontrivial and len(ws) > 20:
+    if nontrivial and len(desc.get("flags", ())) >= 3 and (len(chain) > 1 or fam != "deep"):
         ctx.sample({"state": describe(desc), "route_chain": chain_name(chain), "documented_depth": fam,
                     "mutable_objects_reachable_from_source": len(ws), "from_copy": len(wc),
                     "reachable_from_both": len([k for k in wc if k in ws]), "of_which_documented_shared": len([k for k in wc if k in ws and k in allowed]),
